@@ -967,6 +967,20 @@ def _get_package_names(node: ast.Import | ast.ImportFrom):
     return [alias.name for alias in node.names]
 
 
+def _get_import_bindings(node: ast.Import | ast.ImportFrom) -> Mapping[str, Tuple]:
+    """Get the names that an import binds, and what it binds them to."""
+    bindings = {}
+    for alias in node.names:
+        if isinstance(node, ast.ImportFrom):
+            bindings[alias.asname or alias.name] = (node.module, node.level, alias.name)
+        elif alias.asname:
+            bindings[alias.asname] = (alias.name, 0, None)
+        else:
+            bindings[alias.name.split(".")[0]] = (alias.name.split(".")[0], 0, None)
+
+    return bindings
+
+
 @processing.fix
 def move_imports_to_toplevel(source: str) -> str:
     root = core.parse(source)
@@ -976,6 +990,14 @@ def move_imports_to_toplevel(source: str) -> str:
     for node in toplevel_imports:
         toplevel_packages.update(_get_package_names(node))
 
+    # A name that means something else somewhere else in the module cannot be bound on module
+    # level, it would be shadowed by, or shadow, the other definition.
+    defined_names = tracing.get_defined_names(root)
+    name_bindings = collections.defaultdict(set)
+    for node in all_imports:
+        for name, binding in _get_import_bindings(node).items():
+            name_bindings[name].add(binding)
+
     imports_movable_to_toplevel = {
         node
         for node in all_imports - toplevel_imports
@@ -984,6 +1006,10 @@ def move_imports_to_toplevel(source: str) -> str:
             for name in _get_package_names(node)
         )
         and not core.has_ignore_comment(source, core.get_charnos(node, source))
+        and all(
+            name not in defined_names and len(name_bindings[name]) == 1
+            for name in _get_import_bindings(node)
+        )
     }
 
     if defs := set(
